@@ -121,7 +121,8 @@ Section Quad.
       exists t', qp_put_core K V eqb hash t k v = Ok t' /\ qp_inv0 t' /\
                  (forall k', qp_fun t' k' = fupd (qp_fun t) k v k') /\
                  qp_m K V t' = qp_m K V t /\
-                 qp_n K V t' + qp_t K V t' <= qp_n K V t + qp_t K V t + 1.
+                 qp_n K V t' + qp_t K V t' <= qp_n K V t + qp_t K V t + 1 /\
+                 qp_n K V t' <= S (qp_n K V t).
   Proof.
     intros t k v I Hroom. set (m := qp_m K V t) in *. set (es := qp_e K V t) in *.
     pose proof (q_sinv _ I) as SI. fold m es in SI.
@@ -147,17 +148,17 @@ Section Quad.
       destruct (e_d K V e) eqn:Ed.
       + assert (Ef : sfun es k = None) by (rewrite <- Ek; eapply tomb_absent; eauto).
         rewrite Ef in Hlen.
-        eexists; split; [reflexivity|]. split; [|split; [exact F'|split; [reflexivity|simpl; lia]]].
+        eexists; split; [reflexivity|]. split; [|split; [exact F'|split; [reflexivity|split; simpl; lia]]].
         constructor; simpl; auto; try apply I; lia.
       + assert (Ef : sfun es k = Some (e_v K V e)).
         { apply (proj2 (sfun_slots K V eqb eqb_spec es k (e_v K V e) (s_dist _ _ _ _ _ _ SI))). exists (qidx m k i), e. auto. }
         rewrite Ef in Hlen.
-        eexists; split; [reflexivity|]. split; [|split; [exact F'|split; [reflexivity|simpl; lia]]].
+        eexists; split; [reflexivity|]. split; [|split; [exact F'|split; [reflexivity|split; simpl; lia]]].
         constructor; simpl; auto; try apply I; lia.
     - destruct Ho as [Hemp Habs]. fold es'.
       assert (Ef : sfun es k = None) by (eapply key_absent; eauto).
       rewrite Ef in Hlen.
-      eexists; split; [reflexivity|]. split; [|split; [exact F'|split; [reflexivity|simpl; lia]]].
+      eexists; split; [reflexivity|]. split; [|split; [exact F'|split; [reflexivity|split; simpl; lia]]].
       constructor; simpl; auto; try apply I; lia.
   Qed.
 
@@ -177,7 +178,9 @@ Section Quad.
     0 < lf_den maxlf /\ 0 < lf_den minlf /\
     2 * lf_num maxlf <= lf_den maxlf /\                                   (* maxLF <= 1/2 *)
     lf_den maxlf <= lf_num maxlf * 31 /\                                  (* maxLF * minimum size >= 1 *)
-    3 * lf_num minlf * lf_den maxlf <= lf_num maxlf * lf_den minlf.       (* 3 * minLF <= maxLF *)
+    (3 * lf_num minlf * lf_den maxlf <= lf_num maxlf * lf_den minlf       (* 3 * minLF <= maxLF, or *)
+     \/ (2 * lf_num minlf * lf_den maxlf <= lf_num maxlf * lf_den minlf   (* 2 * minLF <= maxLF with *)
+         /\ lf_num maxlf = 1 /\ Nat.even (lf_den maxlf) = true)).          (* maxLF = 1/(2c): 1/2, 1/4, ... *)
   Hypothesis Hvalid : valid_soft.
 
   (** [k * den < num * m] leaves room for [k] entries among the first (m+1)/2 probes *)
@@ -209,7 +212,7 @@ Section Quad.
       assert (Hlt : (qp_n K V acc + qp_t K V acc + 1) * lf_den maxlf < lf_num maxlf * qp_m K V acc).
       { rewrite Hn, T0. nia. }
       rewrite qp_put_noresize by (apply lf_ge_false; exact Hlt).
-      destruct (qp_put_core_ok acc k v I) as (t1 & H1 & I1 & F1 & M1 & N1).
+      destruct (qp_put_core_ok acc k v I) as (t1 & H1 & I1 & F1 & M1 & N1 & _).
       { rewrite (q_nonnil _ I). apply load_room. exact Hlt. }
       rewrite H1; simpl.
       assert (Hk : ~ In k (keys pre)).
@@ -250,14 +253,10 @@ Section Quad.
     - intros k. unfold qp_fun; simpl. now apply sfun_empty.
   Qed.
 
-  (** the prime gap used by [smallestPrimeLargerThan] (Bertrand's postulate), the one hypothesis *)
-  Definition prime_gap : Prop :=
-    forall n, 31 <= n -> exists p, n <= p < n + (n + 2) /\ is_prime p = true.
-
   Lemma qp_resize_ok : forall d shuf t m',
       qp_inv0 t -> perm_oracle shuf -> 31 <= m' ->
       (exists p, m' <= p < m' + (m' + 2) /\ is_prime p = true) ->
-      qp_n K V t * lf_den maxlf < lf_num maxlf * m' ->
+      (forall p, m' <= p -> is_prime p = true -> qp_n K V t * lf_den maxlf < lf_num maxlf * p) ->
       exists t', qp_resize_with K V (qp_put K V eqb hash maxlf d shuf) shuf t m' = Ok t' /\ qp_inv0 t' /\
                  (forall k, qp_fun t' k = qp_fun t k) /\ m' <= qp_m K V t' /\
                  qp_n K V t' = qp_n K V t /\ qp_t K V t' = 0.
@@ -272,7 +271,7 @@ Section Quad.
     assert (A1 : NoDup (keys ([] ++ qp_all K V shuf t))) by (simpl; apply R).
     assert (A2 : forall k, qp_fun nt k = s_get [] k) by (intros k; rewrite Fn; reflexivity).
     assert (A3 : length ([] ++ qp_all K V shuf t) * lf_den maxlf < lf_num maxlf * qp_m K V nt).
-    { simpl. rewrite Mn, <- Hlen. apply Nat.lt_le_trans with (lf_num maxlf * m'); [exact L|]. apply Nat.mul_le_mono_l. lia. }
+    { simpl. rewrite Mn, <- Hlen. apply L; [lia|exact Pp]. }
     destruct (qp_reinsert_ok d shuf (qp_all K V shuf t) [] nt A1 In Tn A2 A3) as (t' & H' & I' & T' & F' & M').
     rewrite H'; cbn [bind]. simpl in F'.
       assert (Ft : forall k, qp_fun t' k = qp_fun t k).
@@ -289,48 +288,88 @@ Section Quad.
     (qp_n K V t + qp_t K V t) * lf_den maxlf < lf_num maxlf * qp_m K V t.
   Definition qp_inv (t : qp) : Prop := qp_inv0 t /\ qp_load t.
 
-  Hypothesis Hgap : prime_gap.
-
+  (** Put needs a prime in [2m, 4m+1] only when it grows, i.e. when the live entries alone reach the limit *)
   Lemma qp_put_ok : forall d shuf t k v, 1 <= d -> qp_inv t -> perm_oracle shuf ->
+      (lf_ge (qp_n K V t + 1) (qp_m K V t) maxlf = true ->
+       exists p, 2 * qp_m K V t <= p < 2 * qp_m K V t + (2 * qp_m K V t + 2) /\ is_prime p = true) ->
       exists t', qp_put K V eqb hash maxlf d shuf t k v = Ok t' /\ qp_inv t' /\
-                 forall k', qp_fun t' k' = fupd (qp_fun t) k v k'.
+                 (forall k', qp_fun t' k' = fupd (qp_fun t) k v k') /\ qp_n K V t' <= S (qp_n K V t).
   Proof.
-    intros d shuf t k v Hd [I Ld] Pm. unfold qp_load in Ld.
+    intros d shuf t k v Hd [I Ld] Pm Hg. unfold qp_load in Ld.
     destruct Hvalid as (D1 & D2 & D3 & D4 & D5). pose proof (q_min _ I) as M31.
     destruct d as [|d]; [lia|]. simpl.
     destruct (lf_ge (qp_n K V t + qp_t K V t + 1) (qp_m K V t) maxlf) eqn:G.
     - destruct (lf_ge (qp_n K V t + 1) (qp_m K V t) maxlf) eqn:G2.
       + (* the live entries alone reach the limit: grow *)
         destruct (qp_resize_ok d shuf t (2 * qp_m K V t) I Pm ltac:(lia)) as (t1 & H1 & I1 & F1 & M1 & N1 & T1).
-        { apply Hgap. lia. }
-        { nia. }
+        { apply Hg. reflexivity. }
+        { intros p Hp _. apply Nat.lt_le_trans with (lf_num maxlf * (2 * qp_m K V t)); [nia|apply Nat.mul_le_mono_l; lia]. }
         replace (qp_m K V t + (qp_m K V t + 0)) with (2 * qp_m K V t) by lia.
         rewrite H1; cbn [bind].
         assert (L1 : (qp_n K V t1 + qp_t K V t1 + 1) * lf_den maxlf < lf_num maxlf * qp_m K V t1).
         { rewrite N1, T1. apply Nat.lt_le_trans with (lf_num maxlf * (2 * qp_m K V t)); [|apply Nat.mul_le_mono_l; lia]. nia. }
-        destruct (qp_put_core_ok t1 k v I1) as (t2 & H2 & I2 & F2 & M2 & N2).
+        destruct (qp_put_core_ok t1 k v I1) as (t2 & H2 & I2 & F2 & M2 & N2 & B2).
         { rewrite (q_nonnil _ I1). apply load_room. exact L1. }
         exists t2. split; [exact H2|]. split.
         * split; auto. unfold qp_load. rewrite M2. nia.
-        * intros k'. rewrite F2. unfold Spec.fupd. now rewrite F1.
+        * split; [intros k'; rewrite F2; unfold Spec.fupd; now rewrite F1|lia].
       + (* soft-deleted entries fill the table: rehash in place *)
         apply lf_ge_false in G2.
         destruct (qp_resize_ok d shuf t (qp_m K V t) I Pm M31) as (t1 & H1 & I1 & F1 & M1 & N1 & T1).
         { exists (qp_m K V t). split; [lia|apply (q_prime _ I)]. }
-        { nia. }
+        { intros p Hp _. apply Nat.lt_le_trans with (lf_num maxlf * qp_m K V t); [nia|apply Nat.mul_le_mono_l; lia]. }
         rewrite H1; cbn [bind].
         assert (L1 : (qp_n K V t1 + qp_t K V t1 + 1) * lf_den maxlf < lf_num maxlf * qp_m K V t1).
         { rewrite N1, T1. apply Nat.lt_le_trans with (lf_num maxlf * qp_m K V t); [|apply Nat.mul_le_mono_l; lia]. nia. }
-        destruct (qp_put_core_ok t1 k v I1) as (t2 & H2 & I2 & F2 & M2 & N2).
+        destruct (qp_put_core_ok t1 k v I1) as (t2 & H2 & I2 & F2 & M2 & N2 & B2).
         { rewrite (q_nonnil _ I1). apply load_room. exact L1. }
         exists t2. split; [exact H2|]. split.
         * split; auto. unfold qp_load. rewrite M2. nia.
-        * intros k'. rewrite F2. unfold Spec.fupd. now rewrite F1.
+        * split; [intros k'; rewrite F2; unfold Spec.fupd; now rewrite F1|lia].
     - apply lf_ge_false in G. cbn [bind].
-      destruct (qp_put_core_ok t k v I) as (t2 & H2 & I2 & F2 & M2 & N2).
+      destruct (qp_put_core_ok t k v I) as (t2 & H2 & I2 & F2 & M2 & N2 & B2).
       { rewrite (q_nonnil _ I). apply load_room. exact G. }
-      exists t2. split; [exact H2|]. split; auto.
+      exists t2. split; [exact H2|]. split; [|split; auto].
       split; auto. unfold qp_load. rewrite M2. nia.
+  Qed.
+
+  (** after a shrink to the prime [p >= m/2] the live entries stay below the load limit, so that the
+      re-insertion loop needs no nested resize.  For option pairs with 2*minLF = maxLF exactly this
+      is a parity argument: maxLF = 1/(2c), m and p are odd. *)
+  Lemma shrink_fits : forall x m p,
+      is_prime m = true -> 31 <= m -> x * lf_den minlf <= lf_num minlf * m ->
+      m / 2 <= p -> is_prime p = true -> 31 <= p ->
+      x * lf_den maxlf < lf_num maxlf * p.
+  Proof.
+    intros x m p Pm M31 G Hp Pp P31. destruct Hvalid as (D1 & D2 & D3 & D4 & D5).
+    pose proof (is_prime_odd m Pm ltac:(lia)) as Em.
+    assert (Hnum : 0 < lf_num maxlf) by nia.
+    assert (A : lf_num maxlf * (m / 2) <= lf_num maxlf * p) by (apply Nat.mul_le_mono_l; lia).
+    destruct D5 as [D5|(D5 & N1 & Ev)].
+    - assert (Hpre3 : 3 * (x * lf_den maxlf) <= lf_num maxlf * m).
+      { apply Nat.mul_le_mono_pos_r with (p := lf_den minlf); auto.
+        apply Nat.le_trans with (3 * lf_num minlf * lf_den maxlf * m).
+        - replace (3 * (x * lf_den maxlf) * lf_den minlf) with (3 * lf_den maxlf * (x * lf_den minlf)) by lia.
+          replace (3 * lf_num minlf * lf_den maxlf * m) with (3 * lf_den maxlf * (lf_num minlf * m)) by lia.
+          apply Nat.mul_le_mono_l. exact G.
+        - replace (lf_num maxlf * m * lf_den minlf) with (lf_num maxlf * lf_den minlf * m) by lia.
+          apply Nat.mul_le_mono_r. exact D5. }
+      set (X := x * lf_den maxlf) in *.
+      assert (B : lf_num maxlf * m = 2 * (lf_num maxlf * (m / 2)) + lf_num maxlf) by (rewrite Em at 1; lia).
+      assert (C : lf_num maxlf * 15 <= lf_num maxlf * (m / 2)) by (apply Nat.mul_le_mono_l; lia).
+      lia.
+    - rewrite N1 in *. rewrite Nat.mul_1_l in *.
+      destruct (Nat.eq_dec (lf_num minlf) 0) as [Z|NZ].
+      + rewrite Z in G. simpl in G. assert (x = 0) by nia. subst x. simpl. lia.
+      + assert (H2 : 2 * (x * lf_den maxlf) <= m).
+        { apply Nat.mul_le_mono_pos_l with (p := lf_num minlf); [lia|].
+          apply Nat.le_trans with (x * lf_den minlf); [|exact G].
+          replace (lf_num minlf * (2 * (x * lf_den maxlf))) with (x * (2 * lf_num minlf * lf_den maxlf)) by lia.
+          apply Nat.mul_le_mono_l. exact D5. }
+        apply Nat.even_spec in Ev. destruct Ev as [c Ec].
+        pose proof (is_prime_odd p Pp ltac:(lia)) as Ep.
+        assert (EX : x * lf_den maxlf = 2 * (c * x)) by (rewrite Ec; lia).
+        lia.
   Qed.
 
   Lemma frem_absent' : forall (f : K -> option V) k k', f k = None -> frem f k k' = f k'.
@@ -340,7 +379,7 @@ Section Quad.
 
   Lemma qp_delete_ok : forall d shuf t k, 1 <= d -> qp_inv t -> perm_oracle shuf ->
       exists t', qp_delete K V eqb hash minlf maxlf d shuf t k = Ok (t', qp_fun t k) /\ qp_inv t' /\
-                 forall k', qp_fun t' k' = frem (qp_fun t) k k'.
+                 (forall k', qp_fun t' k' = frem (qp_fun t) k k') /\ qp_n K V t' <= qp_n K V t.
   Proof.
     intros d shuf t k Hd Hinv Pm. pose proof Hinv as [I Ld]. unfold qp_load in Ld.
     destruct Hvalid as (D1 & D2 & D3 & D4 & D5). pose proof (q_min _ I) as M31.
@@ -353,7 +392,7 @@ Section Quad.
     destruct o as [e|].
     - destruct Ho as [Ek Hat]. destruct (e_d K V e) eqn:Ed.
       + assert (Ef : qp_fun t k = None) by (unfold qp_fun; fold es; rewrite <- Ek; eapply tomb_absent; eauto).
-        exists t. rewrite Ef. split; [reflexivity|]. split; [exact Hinv|]. intros k'. symmetry. now apply frem_absent'.
+        exists t. rewrite Ef. split; [reflexivity|]. split; [exact Hinv|]. split; [intros k'; symmetry; now apply frem_absent'|lia].
       + destruct (del_slot K V eqb eqb_spec m (qidx m) (qH m) (q_lt t I) (qH_le _) es k i e SI Hat Ek Ed)
           as (L' & V' & D' & F' & Fk & N' & T').
         set (es' := upd es (qidx m k i) (Some {| e_k := e_k K V e; e_v := e_v K V e; e_d := true |})) in *.
@@ -380,38 +419,24 @@ Section Quad.
         * unfold qp_resize.
           destruct (Nat.ltb_spec (m / 2) 31) as [Hsmall|Hbig].
           -- unfold qp_resize_with, qpMinM. destruct (Nat.ltb_spec (m / 2) 31); [|lia]. cbn [bind].
-             exists t1. split; [reflexivity|]. split; [split; auto|exact F1].
+             exists t1. split; [reflexivity|]. split; [split; auto|split; [exact F1|simpl; lia]].
           -- apply lf_le_true in G.
              assert (Hm2 : m <= 2 * (m / 2) + 1).
              { pose proof (Nat.div_mod m 2 ltac:(lia)). pose proof (Nat.mod_upper_bound m 2 ltac:(lia)). lia. }
-             assert (Hpre3 : 3 * (pred (qp_n K V t) * lf_den maxlf) <= lf_num maxlf * m).
-             { apply Nat.mul_le_mono_pos_r with (p := lf_den minlf); auto.
-               apply Nat.le_trans with (3 * lf_num minlf * lf_den maxlf * m).
-               - replace (3 * (pred (qp_n K V t) * lf_den maxlf) * lf_den minlf)
-                   with (3 * lf_den maxlf * (pred (qp_n K V t) * lf_den minlf)) by lia.
-                 replace (3 * lf_num minlf * lf_den maxlf * m) with (3 * lf_den maxlf * (lf_num minlf * m)) by lia.
-                 apply Nat.mul_le_mono_l. exact G.
-               - replace (lf_num maxlf * m * lf_den minlf) with (lf_num maxlf * lf_den minlf * m) by lia.
-                 apply Nat.mul_le_mono_r. exact D5. }
-             assert (Hnum : 0 < lf_num maxlf) by nia.
+             assert (Lp : forall p, m / 2 <= p -> is_prime p = true ->
+                                    pred (qp_n K V t) * lf_den maxlf < lf_num maxlf * p).
+             { intros p0 Hp0 Pp0. apply (shrink_fits _ m p0); auto; [apply (q_prime _ I)|lia]. }
              destruct (qp_resize_ok d shuf t1 (m / 2) I1 Pm Hbig) as (t2 & H2 & I2 & F2 & M2 & N2 & T2).
-             { apply Hgap. exact Hbig. }
-             { change (qp_n K V t1) with (pred (qp_n K V t)). set (X := pred (qp_n K V t) * lf_den maxlf) in *.
-               assert (A : lf_num maxlf * m <= lf_num maxlf * (2 * (m / 2) + 1)) by (apply Nat.mul_le_mono_l; lia).
-               assert (B : lf_num maxlf * 31 <= lf_num maxlf * (m / 2)) by (apply Nat.mul_le_mono_l; lia).
-               lia. }
+             { exists m. split; [|apply (q_prime _ I)]. assert (m / 2 <= m) by (apply Nat.div_le_upper_bound; lia). lia. }
+             { exact Lp. }
              rewrite H2; cbn [bind]. exists t2. split; [reflexivity|]. split.
              ++ split; auto. unfold qp_load. rewrite N2, T2. change (qp_n K V t1) with (pred (qp_n K V t)). rewrite Nat.add_0_r.
-                apply Nat.lt_le_trans with (lf_num maxlf * (m / 2)); [|apply Nat.mul_le_mono_l; lia].
-                set (X := pred (qp_n K V t) * lf_den maxlf) in *.
-                assert (A : lf_num maxlf * m <= lf_num maxlf * (2 * (m / 2) + 1)) by (apply Nat.mul_le_mono_l; lia).
-                assert (B : lf_num maxlf * 31 <= lf_num maxlf * (m / 2)) by (apply Nat.mul_le_mono_l; lia).
-                lia.
-             ++ intros k'. now rewrite F2, F1.
-        * exists t1. split; [reflexivity|]. split; [split; auto|exact F1].
+                apply Lp; [exact M2|apply (q_prime _ I2)].
+             ++ split; [intros k'; now rewrite F2, F1|]. rewrite N2. simpl. lia.
+        * exists t1. split; [reflexivity|]. split; [split; auto|split; [exact F1|simpl; lia]].
     - destruct Ho as [Hemp Habs].
       assert (Ef : qp_fun t k = None) by (unfold qp_fun; fold es; eapply key_absent; eauto).
-      exists t. rewrite Ef. split; [reflexivity|]. split; [exact Hinv|]. intros k'. symmetry. now apply frem_absent'.
+      exists t. rewrite Ef. split; [reflexivity|]. split; [exact Hinv|]. split; [intros k'; symmetry; now apply frem_absent'|lia].
   Qed.
 
   Lemma qp_delete_all_ok : forall t, qp_inv t ->
@@ -428,7 +453,13 @@ Section Quad.
   Qed.
 End Quad.
 
-(** * the refinement theorem for quadratic probing *)
+(** * the refinement theorems for quadratic probing *)
+Definition valid_cap_prime (cap : nat) : Prop := cap = 0 \/ (31 <= cap /\ is_prime cap = true).
+
+(** primes in [n, 2n+1] for every n up to B *)
+Definition prime_gap_upto (B : nat) : Prop :=
+  forall n, 31 <= n <= B -> exists p, n <= p < n + (n + 2) /\ is_prime p = true.
+
 Section QuadTop.
   Variables K V : Type.
   Variable eqb : K -> K -> bool.
@@ -437,20 +468,23 @@ Section QuadTop.
   Variables minlf maxlf : lf.
   Hypothesis eqb_spec : forall a b, eqb a b = true <-> a = b.
   Hypothesis Hvalid : valid_soft minlf maxlf.
-  Hypothesis Hgap : prime_gap.
 
-  Definition valid_cap_prime (cap : nat) : Prop := cap = 0 \/ (31 <= cap /\ is_prime cap = true).
+  (** A Put grows the table only when (n+1)/m >= maxLF, and n is at most the number of operations so
+      far: a history of at most L operations only asks for primes in [2m, 4m+1] with 2m <= 2*L/maxLF. *)
+  Variables B L : nat.
+  Hypothesis HgapB : prime_gap_upto B.
+  Hypothesis HL : 2 * lf_den maxlf * L <= lf_num maxlf * B.
 
-  Definition qu_Inv (t : table K V) : Prop :=
-    match t with TQP _ _ s => qp_inv K V hash maxlf s | _ => False end.
+  Definition qu_InvI (i : nat) (t : table K V) : Prop :=
+    match t with TQP _ _ s => qp_inv K V hash maxlf s /\ qp_n K V s <= i | _ => False end.
   Definition qu_Fun (t : table K V) (k : K) : option V :=
     match t with TQP _ _ s => qp_fun K V eqb s k | _ => None end.
 
-  Theorem quad_refines : forall cap orc ops,
-      valid_cap_prime cap -> (forall i j, perm_oracle (orc i j)) ->
+  Theorem quad_refines_gen : forall cap orc ops,
+      valid_cap_prime cap -> (forall i j, perm_oracle (orc i j)) -> length ops <= L ->
       outs_match K V (run K V eqb eqv hash minlf maxlf orc Quadratic cap ops) (run_spec K V eqb eqv ops).
   Proof.
-    intros cap orc ops Hcap PO.
+    intros cap orc ops Hcap PO HlenL.
     assert (Hc : 31 <= (if cap =? 0 then qpMinM else cap) /\ is_prime (if cap =? 0 then qpMinM else cap) = true).
     { destruct Hcap as [Z|(H31 & Hp)].
       - subst. simpl. split; [unfold qpMinM; lia|reflexivity].
@@ -458,23 +492,44 @@ Section QuadTop.
     destruct Hc as (H31 & Hp).
     destruct (qp_new_ok K V eqb hash eqb_spec _ Hp H31) as (t0 & H0 & I0 & F0 & M0 & N0 & T0).
     pose proof Hvalid as (D1 & D2 & D3 & D4 & D5).
-    apply (run_refines K V eqb eqv eqb_spec hash minlf maxlf qu_Inv qu_Fun) with (t0 := TQP K V t0).
-    - intros [| |s|] shuf I P; try contradiction. apply qp_represents with (hash := hash); auto. apply I.
-    - intros [| |s|] I; try contradiction. simpl. apply qp_size_ok with (hash := hash); apply I.
-    - intros shuf [| |s|] k v I P; try contradiction. unfold put.
-      destruct (qp_put_ok K V eqb eqv hash minlf maxlf eqb_spec Hvalid Hgap depth shuf s k v) as (t' & H' & I' & F'); auto.
+    assert (Hnum : 0 < lf_num maxlf) by nia.
+    apply run_refines_bounded with (L := L) (Inv := qu_InvI) (Fun := qu_Fun) (t0 := TQP K V t0); auto.
+    - intros i [| |s|] I; try contradiction. destruct I as [I Hn]. split; auto.
+    - intros i [| |s|] shuf I P; try contradiction. apply qp_represents with (hash := hash); auto. apply I.
+    - intros i [| |s|] I; try contradiction. simpl. apply qp_size_ok with (hash := hash); apply I.
+    - intros i shuf [| |s|] k v Hi I P; try contradiction. destruct I as [I Hn]. unfold put.
+      destruct (qp_put_ok K V eqb eqv hash minlf maxlf eqb_spec Hvalid depth shuf s k v) as (t' & H' & I' & F' & N'); auto.
       { unfold depth; lia. }
-      exists (TQP K V t'). rewrite H'. simpl. split; auto.
-    - intros [| |s|] k I; try contradiction. simpl. apply qp_get_ok; auto. apply I.
-    - intros shuf [| |s|] k I P; try contradiction. unfold delete.
-      destruct (qp_delete_ok K V eqb eqv hash minlf maxlf eqb_spec Hvalid Hgap depth shuf s k) as (t' & H' & I' & F'); auto.
+      { intros G. apply lf_ge_true in G. apply HgapB. pose proof (q_min _ _ _ _ (proj1 I)) as M31. split; [lia|].
+        apply Nat.mul_le_mono_pos_l with (p := lf_num maxlf); auto.
+        apply Nat.le_trans with (2 * lf_den maxlf * L); [|exact HL].
+        apply Nat.le_trans with (2 * ((qp_n K V s + 1) * lf_den maxlf)); [lia|].
+        replace (2 * lf_den maxlf * L) with (2 * (L * lf_den maxlf)) by lia.
+        apply Nat.mul_le_mono_l. apply Nat.mul_le_mono_r. lia. }
+      exists (TQP K V t'). rewrite H'. simpl. split; auto. split; auto. split; auto. lia.
+    - intros i [| |s|] k I; try contradiction. simpl. apply qp_get_ok; auto. apply I.
+    - intros i shuf [| |s|] k I P; try contradiction. destruct I as [I Hn]. unfold delete.
+      destruct (qp_delete_ok K V eqb eqv hash minlf maxlf eqb_spec Hvalid depth shuf s k) as (t' & H' & I' & F' & N'); auto.
       { unfold depth; lia. }
-      exists (TQP K V t'). rewrite H'. simpl. split; auto.
-    - intros [| |s|] I; try contradiction. simpl. apply qp_delete_all_ok with (minlf := minlf); auto.
-    - intros s1 s2 [| |a|] [| |b|] I1 I2; try contradiction. reflexivity.
+      exists (TQP K V t'). rewrite H'. simpl. split; auto. split; auto. split; auto. lia.
+    - intros i [| |s|] I; try contradiction. destruct I as [I Hn]. simpl.
+      destruct (qp_delete_all_ok K V eqb hash minlf maxlf eqb_spec Hvalid s I) as [A Bq]. split; auto. split; auto. simpl. lia.
+    - intros i s1 s2 [| |a|] [| |b|] I1 I2; try contradiction. reflexivity.
     - simpl. rewrite H0. reflexivity.
-    - simpl. split; auto. unfold qp_load. rewrite N0, T0. simpl. nia.
-    - intros k. simpl. apply F0.
-    - exact PO.
+    - simpl. split; [|lia]. split; auto. unfold qp_load. rewrite N0, T0. simpl. nia.
   Qed.
 End QuadTop.
+
+Definition prime_gap : Prop := forall n, 31 <= n -> exists p, n <= p < n + (n + 2) /\ is_prime p = true.
+
+(** unbounded histories, under the prime-gap hypothesis *)
+Theorem quad_refines : forall (K V : Type) (eqb : K -> K -> bool) (eqv : V -> V -> bool) (hash : K -> N) (minlf maxlf : lf),
+    (forall a b, eqb a b = true <-> a = b) -> valid_soft minlf maxlf -> prime_gap ->
+    forall cap orc ops, valid_cap_prime cap -> (forall i j, perm_oracle (orc i j)) ->
+    outs_match K V (run K V eqb eqv hash minlf maxlf orc Quadratic cap ops) (run_spec K V eqb eqv ops).
+Proof.
+  intros K V eqb eqv hash minlf maxlf He Hv Hg cap orc ops Hc PO.
+  apply (quad_refines_gen K V eqb eqv hash minlf maxlf He Hv (2 * lf_den maxlf * length ops) (length ops)); auto.
+  - intros n Hn. apply Hg. lia.
+  - destruct Hv as (D1 & D2 & D3 & D4 & D5). assert (0 < lf_num maxlf) by nia. nia.
+Qed.
